@@ -9,7 +9,8 @@ table = json.loads((ROOT / "tools" / "manifest_table.json").read_text())
 md = ROOT / "tools" / "manifest.d"
 if md.is_dir():
     for f in sorted(md.glob("C*.json")):
-        table["checks"][f.stem] = json.loads(f.read_text())
+        if f.stem in table.get("enabled", []):   # only properties reviewed and enabled by the integrator
+            table["checks"][f.stem] = json.loads(f.read_text())
 props = [json.loads(l) for l in (ROOT / "properties.jsonl").read_text().splitlines() if l.strip()]
 BASE = ("cd /repo && /venv/bin/python -m pytest -ra -q -p no:cacheprovider --timeout=900 "
         "--continue-on-collection-errors")
